@@ -32,6 +32,15 @@ Fixpoint before {A} (eqb : A -> A -> bool) (x : A) (l : list A) : list A :=   (*
 Fixpoint after {A} (eqb : A -> A -> bool) (x : A) (l : list A) : list A :=    (* items strictly after x *)
   match l with [] => [] | y :: r => if eqb y x then r else after eqb x r end.
 
+(* The same with the non-strict bound: an arena may hold exactly u32::MAX nodes (ids
+   0 .. u32::MAX - 1).  Everything below is proved for [Arena'] (primed names); the theorems
+   for [Arena] are corollaries at the end of each file. *)
+Definition Arena' (d : document) (t : tree) : Prop :=
+  links_of_nodes (d_nodes d) = encode t /\ size t <= 4294967295.
+
+Lemma Arena_weaken d t : Arena d t -> Arena' d t.
+Proof. intros [H1 H2]. split; [exact H1 | lia]. Qed.
+
 (* ------------------------------------------------------------------ *)
 (* before / after on a list without duplicates *)
 Lemma before_split x pre post :
@@ -196,7 +205,7 @@ Qed.
 
 (* ------------------------------------------------------------------ *)
 (* the arena *)
-Lemma arena_len d t : Arena d t -> len_N (d_nodes d) = size t.
+Lemma arena_len d t : Arena' d t -> len_N (d_nodes d) = size t.
 Proof.
   intros [HA _]. unfold len_N.
   assert (E : length (d_nodes d) = length (encode t)).
@@ -205,7 +214,7 @@ Proof.
 Qed.
 
 Lemma arena_get d t id par pv s :
-  Arena d t -> In (id, par, pv, s) (table' t) ->
+  Arena' d t -> In (id, par, pv, s) (table' t) ->
   exists nd, get_node d id = Some nd /\
     nd_parent nd = par /\ nd_prev_sibling nd = pv /\
     nd_last_child nd = last_child_id (id + 1) (tchildren s) /\
@@ -223,7 +232,7 @@ Proof.
 Qed.
 
 Lemma arena_node_unwrap d t id par pv s :
-  Arena d t -> In (id, par, pv, s) (table' t) -> node_unwrap d id = Ok id.
+  Arena' d t -> In (id, par, pv, s) (table' t) -> node_unwrap d id = Ok id.
 Proof.
   intros HA Hin. destruct (arena_get _ _ _ _ _ _ HA Hin) as (nd & Hg & _).
   unfold node_unwrap. rewrite Hg. reflexivity.
@@ -238,8 +247,8 @@ Qed.
 
 (* ------------------------------------------------------------------ *)
 (* main theorems *)
-Theorem nav_parent : forall d t id par s,
-  Arena d t -> In (id, par, s) (table t) -> parent d id = Ok par.
+Theorem nav_parent' : forall d t id par s,
+  Arena' d t -> In (id, par, s) (table t) -> parent d id = Ok par.
 Proof.
   intros d t id par s HA Hin. apply in_table_table'' in Hin. destruct Hin as [pv Hin].
   destruct (arena_get _ _ _ _ _ _ HA Hin) as (nd & Hg & Hpar & _).
@@ -248,10 +257,10 @@ Proof.
   destruct (table'_parent _ _ _ _ _ Hin) as (pp & ppv & k & l1 & l2 & Hp & _).
   rewrite (arena_node_unwrap _ _ _ _ _ _ HA Hp). reflexivity.
 Qed.
-Print Assumptions nav_parent.
+Print Assumptions nav_parent'.
 
-Theorem nav_has_children : forall d t id par s,
-  Arena d t -> In (id, par, s) (table t) ->
+Theorem nav_has_children' : forall d t id par s,
+  Arena' d t -> In (id, par, s) (table t) ->
   has_children d id = Ok (negb (match tchildren s with [] => true | _ => false end)).
 Proof.
   intros d t id par s HA Hin. apply in_table_table'' in Hin. destruct Hin as [pv Hin].
@@ -260,10 +269,10 @@ Proof.
   destruct (tchildren s) as [|c r]; [reflexivity|].
   destruct (last_child_id_cons (id + 1) c r) as [y Hy]. rewrite Hy. reflexivity.
 Qed.
-Print Assumptions nav_has_children.
+Print Assumptions nav_has_children'.
 
-Theorem nav_last_child : forall d t id par s,
-  Arena d t -> In (id, par, s) (table t) ->
+Theorem nav_last_child' : forall d t id par s,
+  Arena' d t -> In (id, par, s) (table t) ->
   last_child d id = Ok (hd_error (rev (child_ids (id + 1) (tchildren s)))).
 Proof.
   intros d t id par s HA Hin. apply in_table_table'' in Hin. destruct Hin as [pv Hin].
@@ -277,10 +286,10 @@ Proof.
   destruct (table'_child_id _ _ _ _ _ _ Hin Hy) as (pvy & sy & Hrow).
   rewrite (arena_node_unwrap _ _ _ _ _ _ HA Hrow). reflexivity.
 Qed.
-Print Assumptions nav_last_child.
+Print Assumptions nav_last_child'.
 
-Theorem nav_first_child : forall d t id par s,
-  Arena d t -> In (id, par, s) (table t) ->
+Theorem nav_first_child' : forall d t id par s,
+  Arena' d t -> In (id, par, s) (table t) ->
   first_child d id = Ok (hd_error (child_ids (id + 1) (tchildren s))).
 Proof.
   intros d t id par s HA Hin. apply in_table_table'' in Hin. destruct Hin as [pv Hin].
@@ -298,10 +307,10 @@ Proof.
   destruct (4294967295 <=? id + 1) eqn:E; [apply N.leb_le in E; lia|].
   cbn [bind]. rewrite (arena_node_unwrap _ _ _ _ _ _ (conj HA1 HA2) Hrow). reflexivity.
 Qed.
-Print Assumptions nav_first_child.
+Print Assumptions nav_first_child'.
 
-Theorem nav_prev_sibling : forall d t id par s,
-  Arena d t -> In (id, par, s) (table t) ->
+Theorem nav_prev_sibling' : forall d t id par s,
+  Arena' d t -> In (id, par, s) (table t) ->
   prev_sibling d id = Ok (hd_error (rev (before N.eqb id (sibling_ids t id par)))).
 Proof.
   intros d t id par s HA Hin. apply in_table_table'' in Hin. destruct Hin as [pv Hin].
@@ -321,10 +330,10 @@ Proof.
   - apply table'_root in Hin. destruct Hin as (E1 & E2 & E3). subst.
     cbn [sibling_ids before]. rewrite N.eqb_refl. reflexivity.
 Qed.
-Print Assumptions nav_prev_sibling.
+Print Assumptions nav_prev_sibling'.
 
-Theorem nav_next_sibling : forall d t id par s,
-  Arena d t -> In (id, par, s) (table t) ->
+Theorem nav_next_sibling' : forall d t id par s,
+  Arena' d t -> In (id, par, s) (table t) ->
   next_sibling d id = Ok (hd_error (after N.eqb id (sibling_ids t id par))).
 Proof.
   intros d t id par s HA Hin. apply in_table_table'' in Hin. destruct Hin as [pv Hin].
@@ -358,10 +367,10 @@ Proof.
     cbn [sibling_ids after]. rewrite N.eqb_refl. cbn [hd_error].
     destruct (0 + size t <? size t) eqn:E; [apply N.ltb_lt in E; lia | reflexivity].
 Qed.
-Print Assumptions nav_next_sibling.
+Print Assumptions nav_next_sibling'.
 
-Theorem nav_descendants : forall d t id par s,
-  Arena d t -> In (id, par, s) (table t) ->
+Theorem nav_descendants' : forall d t id par s,
+  Arena' d t -> In (id, par, s) (table t) ->
   descendants d id = Ok {| it_lo := id; it_hi := id + size s |}.
 Proof.
   intros d t id par s HA Hin. apply in_table_table'' in Hin. destruct Hin as [pv Hin].
@@ -378,4 +387,62 @@ Proof.
     destruct (size t <? id) eqn:E1; [apply N.ltb_lt in E1; lia|].
     rewrite N.ltb_irrefl. reflexivity.
 Qed.
+Print Assumptions nav_descendants'.
+
+(* ------------------------------------------------------------------ *)
+(* the theorems for [Arena] (strict bound) *)
+Theorem nav_parent : forall d t id par s,
+  Arena d t -> In (id, par, s) (table t) -> parent d id = Ok par.
+Proof.
+  intros *. intros HA. generalize (Arena_weaken _ _ HA). clear HA. apply nav_parent'.
+Qed.
+Print Assumptions nav_parent.
+
+Theorem nav_has_children : forall d t id par s,
+  Arena d t -> In (id, par, s) (table t) ->
+  has_children d id = Ok (negb (match tchildren s with [] => true | _ => false end)).
+Proof.
+  intros *. intros HA. generalize (Arena_weaken _ _ HA). clear HA. apply nav_has_children'.
+Qed.
+Print Assumptions nav_has_children.
+
+Theorem nav_last_child : forall d t id par s,
+  Arena d t -> In (id, par, s) (table t) ->
+  last_child d id = Ok (hd_error (rev (child_ids (id + 1) (tchildren s)))).
+Proof.
+  intros *. intros HA. generalize (Arena_weaken _ _ HA). clear HA. apply nav_last_child'.
+Qed.
+Print Assumptions nav_last_child.
+
+Theorem nav_first_child : forall d t id par s,
+  Arena d t -> In (id, par, s) (table t) ->
+  first_child d id = Ok (hd_error (child_ids (id + 1) (tchildren s))).
+Proof.
+  intros *. intros HA. generalize (Arena_weaken _ _ HA). clear HA. apply nav_first_child'.
+Qed.
+Print Assumptions nav_first_child.
+
+Theorem nav_prev_sibling : forall d t id par s,
+  Arena d t -> In (id, par, s) (table t) ->
+  prev_sibling d id = Ok (hd_error (rev (before N.eqb id (sibling_ids t id par)))).
+Proof.
+  intros *. intros HA. generalize (Arena_weaken _ _ HA). clear HA. apply nav_prev_sibling'.
+Qed.
+Print Assumptions nav_prev_sibling.
+
+Theorem nav_next_sibling : forall d t id par s,
+  Arena d t -> In (id, par, s) (table t) ->
+  next_sibling d id = Ok (hd_error (after N.eqb id (sibling_ids t id par))).
+Proof.
+  intros *. intros HA. generalize (Arena_weaken _ _ HA). clear HA. apply nav_next_sibling'.
+Qed.
+Print Assumptions nav_next_sibling.
+
+Theorem nav_descendants : forall d t id par s,
+  Arena d t -> In (id, par, s) (table t) ->
+  descendants d id = Ok {| it_lo := id; it_hi := id + size s |}.
+Proof.
+  intros *. intros HA. generalize (Arena_weaken _ _ HA). clear HA. apply nav_descendants'.
+Qed.
 Print Assumptions nav_descendants.
+
